@@ -199,3 +199,36 @@ Lemma stale_mark_loses :
   lww (x_acked (xrun true false stale_ops)) kx = Some 6%Z /\ x_recovered (xrun true false stale_ops) kx = None /\
   x_recovered (xrun true true stale_ops) kx = Some 6%Z /\ x_recovered (xrun false true stale_ops) kx = Some 6%Z.
 Proof. vm_compute. repeat split; reflexivity. Qed.
+
+(* ---------- asynchronous replay: the two-table rule ---------- *)
+Lemma arun_shape files log ops :
+  a_files (arun files log ops) = files /\ a_done (arun files log ops) ++ a_log (arun files log ops) = log /\
+  a_rep (arun files log ops) = a_done (arun files log ops) /\ a_act (arun files log ops) = a_new (arun files log ops).
+Proof.
+  unfold arun. assert (H : a_files (ainit files log) = files /\ a_done (ainit files log) ++ a_log (ainit files log) = log /\
+    a_rep (ainit files log) = a_done (ainit files log) /\ a_act (ainit files log) = a_new (ainit files log)) by (cbn; auto).
+  revert H. generalize (ainit files log). induction ops as [|o ops IH]; intros st H; [exact H|]. cbn [fold_left]. apply IH.
+  destruct H as (H1 & H2 & H3 & H4). destruct o; unfold astep.
+  - destruct (a_log st) as [|r rest] eqn:E; [rewrite E; auto|]. cbn. rewrite <- app_assoc. cbn. rewrite H3. auto.
+  - cbn. rewrite H4. auto.
+Qed.
+
+(* with the replayed records below the new writes, at EVERY moment of EVERY interleaving a read shows the last-write-wins state
+   of (data files, the records re-applied so far, the writes acknowledged since the restart) - the same as if the re-applied
+   part of the log had been applied before the first new write *)
+Theorem async_two_tables_exact files log ops k :
+  a_read false (arun files log ops) k =
+  lww (files ++ a_done (arun files log ops) ++ a_new (arun files log ops)) k.
+Proof.
+  destruct (arun_shape files log ops) as (H1 & _ & H3 & H4). unfold a_read. rewrite H1, H3, H4.
+  rewrite (lww_app files (a_done (arun files log ops) ++ a_new (arun files log ops)) k), !over_apply.
+  rewrite (lww_app (a_done (arun files log ops)) (a_new (arun files log ops)) k), over_apply.
+  destruct (lww (a_new (arun files log ops)) k); reflexivity.
+Qed.
+
+(* today's single table: a write acknowledged during the replay is overwritten by the older logged value *)
+Definition ka : key := (1, 1, 1)%N.
+Lemma async_one_table_reverts :
+  let st := arun [] [[(ka, 1%Z)]] [AWrite [(ka, 2%Z)]; AReplayOne] in
+  a_log st = [] /\ a_read true st ka = Some 1%Z /\ a_read false st ka = Some 2%Z /\ lww ([] ++ a_done st ++ a_new st) ka = Some 2%Z.
+Proof. vm_compute. repeat split; reflexivity. Qed.
